@@ -49,6 +49,7 @@ type sysQRun struct {
 	cancelled  atomic.Bool
 	cancelDone atomic.Bool // the cancel call has returned
 	closeAsked atomic.Bool
+	closeEarly atomic.Bool // a Close call returned while the pipeline had not wound down
 	queryErr   error
 	// read by the consumer around the Next call that returned false
 	cancelBeforeFinal bool // the caller's cancel had returned before that call began
@@ -153,6 +154,12 @@ func runSysScenario(c *Ctx, fixed bool, kind string) (term string, desc map[stri
 		maxQC, shape = 1+c.intn(2), "manyfiles"
 	case "handoff":
 		maxQC = 1 + c.intn(2)
+	case "starve":
+		// sometimes the stalled query has more candidate files than its pipeline absorbs: its file workers block
+		// in dispatch as well (they must not hold a slot there either)
+		if c.chance(0.35) && !qHangSeen {
+			maxQC, shape = 1+c.intn(2), "manyfiles"
+		}
 	case "bigfilter":
 		maxQC, shape = []int{1, 2, 8}[c.intn(3)], "bigfilter"
 	}
@@ -179,6 +186,9 @@ func runSysScenario(c *Ctx, fixed bool, kind string) (term string, desc map[stri
 	nq := 1
 	if c.chance(0.45) && !dedicated {
 		nq = 2 + c.intn(2)
+	}
+	if kind == "starve" && shape == "manyfiles" {
+		nq = 2
 	}
 	// a MetaStore owes the engine no block order
 	if kind == "random" || kind == "bigfilter" {
@@ -266,6 +276,11 @@ func runSysScenario(c *Ctx, fixed bool, kind string) (term string, desc map[stri
 		if kind == "starve" {
 			if i == 0 {
 				p.mode, p.stallAt = "stall", c.intn(5)
+				if shape == "manyfiles" {
+					for p.sq.hasPre || p.sq.name != "field:tag" {
+						p.sq = c.genSysQuery() // bloom conditions (the file workers take slots), every file survives
+					}
+				}
 			} else {
 				p.mode = "drain"
 			}
@@ -292,13 +307,13 @@ func runSysScenario(c *Ctx, fixed bool, kind string) (term string, desc map[stri
 			p.mode, p.ctxKind, p.twoClose = "cancelLate", "gated", false
 		case "inread":
 			p.mode = "inRead"
-			p.after = []string{"close", "cancel"}[c.intn(2)]
+			p.after = []string{"close", "cancel", "cancelclose"}[c.intn(3)]
 		case "handoff":
 			p.mode, p.ctxKind = "handoff", "std"
 			p.after = []string{"cancel", "cancel", "close"}[c.intn(3)]
 		case "bigfilter":
 			p.mode = []string{"drain", "drain", "slow", "cancelAt", "closeAt"}[c.intn(5)]
-			for !strings.HasPrefix(p.sq.name, "token") && !strings.HasPrefix(p.sq.name, "fieldtoken") && !strings.HasPrefix(p.sq.name, "field:") {
+			for p.sq.hasPre || (!strings.HasPrefix(p.sq.name, "token") && !strings.HasPrefix(p.sq.name, "fieldtoken") && !strings.HasPrefix(p.sq.name, "field:")) {
 				p.sq = c.genSysQuery() // the block filter pass only runs for a query with bloom conditions
 			}
 		}
@@ -331,7 +346,9 @@ func runSysScenario(c *Ctx, fixed bool, kind string) (term string, desc map[stri
 	// inread: one read is a request in flight: it returns (with the context's error) only when the query's
 	// context is done; the query is cancelled / closed while it is in flight
 	readParked := make(chan *qHandle, 1)
+	holdRead := make(chan struct{}) // cancelclose: the request in flight does not return before the harness says so
 	if kind == "inread" {
+		ignoreCtx := sc.runs[0].plan.after == "cancelclose"
 		parkAt := int64([]int{0, 0, 1, 1, 2, 3, 5}[c.intn(7)])
 		faultDesc = append(faultDesc, fmt.Sprintf("park-read#%d", parkAt))
 		var hookCtr atomic.Int64
@@ -341,9 +358,16 @@ func runSysScenario(c *Ctx, fixed bool, kind string) (term string, desc map[stri
 				case readParked <- h:
 				default:
 				}
-				select {
-				case <-h.ctx.Done():
-				case <-time.After(10 * time.Second):
+				if ignoreCtx {
+					select {
+					case <-holdRead:
+					case <-time.After(10 * time.Second):
+					}
+				} else {
+					select {
+					case <-h.ctx.Done():
+					case <-time.After(10 * time.Second):
+					}
 				}
 			}
 			return nil
@@ -354,6 +378,11 @@ func runSysScenario(c *Ctx, fixed bool, kind string) (term string, desc map[stri
 	if kind == "bigfilter" {
 		sq := sc.runs[0].plan.sq
 		f := &w.files[0]
+		for i := range w.files {
+			if len(w.files[i].blocks) > len(f.blocks) {
+				f = &w.files[i]
+			}
+		}
 		blocks := w.queryBlocks(f, sq)
 		starts := qChunkStarts(blocks)
 		c.dist("sys_bigfilter_chunks", fmt.Sprint(len(starts)))
@@ -493,6 +522,9 @@ func runSysScenario(c *Ctx, fixed bool, kind string) (term string, desc map[stri
 				if err := q.r.Close(); err != nil {
 					c.violation("q-close-nonnil", "Close returned a non-nil error: "+err.Error(), map[string]any{"plan": sc.plan})
 				}
+				if !q.r.VerifWorkersDone() {
+					q.closeEarly.Store(true)
+				}
 			})
 		}
 		q.consumer.start(func() {
@@ -576,10 +608,18 @@ func runSysScenario(c *Ctx, fixed bool, kind string) (term string, desc map[stri
 			select {
 			case <-readParked:
 				c.dist("sys_inread", "parked->"+q.plan.after)
-				if q.plan.after == "cancel" {
+				switch q.plan.after {
+				case "cancel":
 					sc.doCancel(q, false)
-				} else {
+				case "close":
 					sc.askClose(q)
+				case "cancelclose":
+					// the caller cancels and then closes without driving Next to false, while a worker is inside a
+					// store request that takes its time: Close returns only once that worker is out
+					sc.doCancel(q, false)
+					sc.askClose(q)
+					time.Sleep(3 * time.Millisecond)
+					close(holdRead)
 				}
 				break waitPark
 			default:
@@ -740,6 +780,9 @@ func runSysScenario(c *Ctx, fixed bool, kind string) (term string, desc map[stri
 			continue
 		}
 		f := finals[i]
+		if q.closeEarly.Load() {
+			c.violation("q-close-early", fmt.Sprintf("query %d: a Close call returned while the query's pipeline had not wound down (workers may still hold handles and slots)", q.idx), info)
+		}
 		if !q.stickyOK {
 			c.violation("q-sticky", fmt.Sprintf("query %d: Next returned true (or Row non-nil) after it had returned false", q.idx), info)
 		}
